@@ -32,6 +32,7 @@ FwdReason == IF pc # "flush" THEN "model called outside a batch"
              ELSE IF refmode = "fn" /\ rk # Len(Xi) THEN "model called before every reference of the batch was generated"
              ELSE IF E.x # [k \in 1..Len(Xi) |-> ex[Xi[k] + 1]] THEN "batch does not hold the next pairs in (example, shuffle) order"
              ELSE IF E.r # [k \in 1..Len(Xi) |-> <<ex[Xi[k] + 1], rj[k]>>] THEN "a reference is not shuffle j of its own example"
+             ELSE IF E.wa /\ E.a = <<>> THEN "extra arguments given to the call did not reach the model"
              ELSE IF E.a # <<>> /\ (E.a # E.x \/ E.a2 # E.x) THEN "extra arguments are not matched to their example in both halves"
              ELSE ""
 TForward == /\ E.ev = "forward" /\ FwdReason = "" /\ Flush /\ rk' = 0 /\ l' = l + 1 /\ Keep
